@@ -315,7 +315,20 @@ pub fn light_dist(u: DistUse, allow_zero: bool) -> BoxedStrategy<DistSpec> {
 
 pub fn dist(profile: DistProfile, u: DistUse) -> BoxedStrategy<DistSpec> {
     match profile {
-        DistProfile::Const => select(const_values(u)).prop_map(DistSpec::constant).boxed(),
+        DistProfile::Const => match u {
+            // a constant with an offset (`start`) and/or a clamp (`max`) is still a constant
+            DistUse::CounterValue | DistUse::Limit => prop_oneof![
+                5 => select(const_values(u)).prop_map(DistSpec::constant),
+                1 => (select(const_values(u)), select(vec![1.0, 2.0, 5.0]), select(vec![0.0, 0.0, 1.0, 3.0, 6.0])).prop_map(|(v, start, max)| {
+                    let mut d = DistSpec::constant(v);
+                    d.start = Fx(start);
+                    d.max = Fx(max);
+                    d
+                }),
+            ]
+            .boxed(),
+            _ => select(const_values(u)).prop_map(DistSpec::constant).boxed(),
+        },
         DistProfile::Light => light_dist(u, true),
         DistProfile::Wild => prop_oneof![
             2 => select(const_values(u)).prop_map(DistSpec::constant),
